@@ -23,9 +23,7 @@ import (
 	"errors"
 	"fmt"
 	"math/rand"
-	"regexp"
 	"sort"
-	"strconv"
 	"strings"
 	"unsafe"
 
@@ -39,6 +37,7 @@ import (
 	"github.com/9elements/converged-security-suite/v2/pkg/bootflow/types"
 	"github.com/9elements/converged-security-suite/v2/pkg/tpmeventlog"
 	pkgbytes "github.com/linuxboot/fiano/pkg/bytes"
+	"github.com/linuxboot/fiano/pkg/uefi"
 
 	"verifharness/gal"
 )
@@ -358,6 +357,7 @@ type hflow struct {
 	multi     bool     // volumes with several generated files (files.go)
 	fileKinds []string // ... what was built
 	passes    []passKind // the runs made over the one log, in order (passes.go)
+	srcRoot   error      // innermost error datasources.UEFIFiles(...).Data returns on the state of the run (nil: none)
 }
 
 type measureAct struct{ datas []types.References }
@@ -712,7 +712,7 @@ func (f *hflow) project(res *runResult, hp *heapProj) ([]pstep, map[issueKey]boo
 // ---------- observed validator output ----------
 
 type oref struct {
-	key    int // type-name rank (actors validator text) or artifact identity (final coverage)
+	key    int // artifact identity
 	nomap  bool
 	phys   bool        // biosimage.PhysMemMapper (only recorded for the merged measurements)
 	ranges [][2]uint64 // start, end as printed / End()
@@ -725,8 +725,6 @@ type oissue struct {
 	meas []oref
 }
 
-var reNotProtected = regexp.MustCompile(`(?s)^actor (.*) executed step (\d+), while their areas (.*) were not protected; protected by this moment were only: (.*)$`)
-
 func shortType(tn string) string {
 	if i := strings.Index(tn, "."); i >= 0 {
 		return tn[i+1:]
@@ -734,76 +732,25 @@ func shortType(tn string) string {
 	return tn
 }
 
-// parse format.NiceString(types.References)
-func (f *hflow) parseRefs(s string, rank map[string]int) ([]oref, error) {
-	out := []oref{}
-	if s == "" {
-		return out, nil
-	}
-	for _, part := range strings.Split(s, ", ") {
-		i := strings.Index(part, ":[")
-		if i < 0 || !strings.HasSuffix(part, "]") {
-			return nil, fmt.Errorf("cannot parse reference %q", part)
-		}
-		head, body := part[:i], part[i+2:len(part)-1]
-		o := oref{nomap: true, ranges: [][2]uint64{}}
-		if j := strings.Index(head, ":"); j >= 0 {
-			o.nomap = false
-			head = head[:j]
-		}
-		r, ok := rank[head]
-		if !ok {
-			return nil, fmt.Errorf("unknown artifact type %q", head)
-		}
-		o.key = r
-		if body != "" {
-			for _, rs := range strings.Split(body, ",") {
-				w := strings.Split(rs, ":")
-				if len(w) != 2 {
-					return nil, fmt.Errorf("cannot parse range %q", rs)
-				}
-				a, e1 := strconv.ParseUint(w[0], 16, 64)
-				b, e2 := strconv.ParseUint(w[1], 16, 64)
-				if e1 != nil || e2 != nil {
-					return nil, fmt.Errorf("cannot parse range %q", rs)
-				}
-				o.ranges = append(o.ranges, [2]uint64{a, b})
-			}
-		}
-		out = append(out, o)
-	}
-	return out, nil
-}
-
-func (f *hflow) obsVAP(iss validator.Issues, rank map[string]int) []oissue {
+// What is observed of an issue of ValidatorActorsAreProtected: StepIdx, Coords and
+// whether the error wraps another error (the three "cannot resolve ..." issues wrap
+// the error of References.Resolve; the "actor code is not protected" issue wraps
+// nothing).  The ranges the validator names are available inside the message text
+// only, and the wording of a message is not behaviour the property talks about:
+// nothing is read out of the text.
+//
+//	kind 4: not protected; kind 1: an issue that carries the error of a Resolve call
+func (f *hflow) obsVAP(iss validator.Issues) []oissue {
 	out := []oissue{}
 	for _, is := range iss {
-		msg := is.Issue.Error()
 		o := oissue{step: int(is.StepIdx), nm: []oref{}, meas: []oref{}}
 		switch {
-		case strings.HasPrefix(msg, "unable to resolve the measured references"):
+		case is.Issue == nil:
+			o.kind = -1
+		case errors.Unwrap(is.Issue) != nil:
 			o.kind = 1
-		case strings.HasPrefix(msg, "unable to resolve the actor references"):
-			o.kind = 2
-		case strings.HasPrefix(msg, "unable to resolve references"):
-			o.kind = 3
 		default:
-			m := reNotProtected.FindStringSubmatch(msg)
-			if m == nil {
-				o.kind = -1
-				break
-			}
 			o.kind = 4
-			if n, _ := strconv.Atoi(m[2]); n != o.step {
-				o.kind = -2 // the step number in the text differs from StepIdx
-			}
-			var err error
-			if o.nm, err = f.parseRefs(m[3], rank); err != nil {
-				o.kind = -3
-			}
-			if o.meas, err = f.parseRefs(m[4], rank); err != nil {
-				o.kind = -4
-			}
 		}
 		if _, ok := is.Coords.(bootengine.StepIssueCoordsActor); !ok {
 			o.kind = -5
@@ -825,6 +772,54 @@ func (f *hflow) projID(rs types.References) []oref {
 	return out
 }
 
+// the filter ValidatorFinalCoverageIsComplete hands to datasources.UEFIFiles
+func execFileFilter(file *uefi.File) (bool, error) {
+	for _, section := range file.Sections {
+		switch section.Header.Type {
+		case uefi.SectionTypePE32, uefi.SectionTypePIC, uefi.SectionTypeTE:
+			return true, nil
+		}
+	}
+	return false, nil
+}
+
+// innermost error of a chain of wrapped errors
+func rootError(err error) error {
+	for err != nil {
+		next := errors.Unwrap(err)
+		if next == nil {
+			return err
+		}
+		err = next
+	}
+	return nil
+}
+
+// sourceError calls the data source of the final-coverage validator on the state
+// of the run and keeps the innermost error it returns (nil: it returns data).
+func (f *hflow) sourceError(res *runResult) {
+	f.srcRoot = nil
+	var err error
+	if panicked, _ := gal.Recover(func() { _, err = datasources.UEFIFiles(execFileFilter).Data(context.Background(), res.state) }); panicked {
+		return
+	}
+	f.srcRoot = rootError(err)
+}
+
+// the "files unavailable" issue is the one that carries the error the data source
+// itself returns (same innermost error value)
+func (f *hflow) wrapsSourceError(issue error) bool {
+	if issue == nil || f.srcRoot == nil {
+		return false
+	}
+	root := rootError(issue)
+	if root == issue {
+		return false // nothing is wrapped
+	}
+	defer func() { _ = recover() }() // == on an uncomparable dynamic type
+	return root == f.srcRoot
+}
+
 func (f *hflow) obsVFC(iss validator.Issues) []oissue {
 	out := []oissue{}
 	for _, is := range iss {
@@ -835,7 +830,7 @@ func (f *hflow) obsVFC(iss validator.Issues) []oissue {
 			o.kind = 6
 			o.nm = f.projID(nfc.NonMeasured)
 			o.meas = f.projID(nfc.Measured)
-		case strings.HasPrefix(is.Issue.Error(), "unable to get UEFI files"):
+		case f.wrapsSourceError(is.Issue):
 			o.kind = 5
 		default:
 			o.kind = -1
